@@ -94,6 +94,9 @@ def run(ctx):
     rng = random.Random(ctx.seed + 11)
     if q and len(hist) > 700:
         hist = rng.sample(hist, 700)
+    elif not q and len(hist) > 8000:
+        # (each history is replayed in three notations and validated event by event: 8 000 keep the thorough tier within the hour)
+        hist = rng.sample(hist, 8000)
     ctx.extra["generated_histories"] = {"states_with_hist": nstates, "replayed_twice": len(hist)}
     ctx.stage("twin-replay")
     from ..fixtures import pmap
